@@ -43,6 +43,9 @@ const (
 	UnknownOperator = spectypes.OperatorID(999) // not registered
 )
 
+// ForkEpochOf maps the spec's ForkEpoch code (relative to the epoch of BaseSlot) to the real epoch.
+func ForkEpochOf(code int) phase0.Epoch { return phase0.Epoch(int64(BaseSlot/32) + int64(code)) }
+
 // validator classes of the registry
 var ValClasses = []string{"active", "unknown", "liquidated", "nometa", "exited", "pending", "badpk", "active2"}
 
